@@ -68,7 +68,7 @@ func main() {
 		switch {
 		case obs == "panic":
 			r.Stat("obs.panic", 1)
-		case obs == "err:any":
+		case strings.HasPrefix(obs, "err:"):
 			r.Stat("obs.err", 1)
 		case strings.Contains(obs, "panic"):
 			r.Stat("obs.accessor-panic", 1)
